@@ -18,15 +18,14 @@
    * in BINARY32 arithmetic (what the code computes, f32_ops) the statement is FALSE for
      ill-conditioned matrices: C08_ieee_refuted.  Proved for binary32: scale is monotone when
      the sign bit of the factor is clear (C08_scale_monotone_f32), so the consequence clause
-     follows from the main clause (C08_threshold_transfer_f32); with the factor -0.0, which
-     to_discrete produces on zero matrices of mixed signs, it does not
-     (C08_threshold_transfer_f32_refuted_negzero).  Not proved: the main clause for binary32
+     follows from the main clause (C08_threshold_transfer_f32); to_discrete's factor always has
+     its sign bit clear (C08_factor_sign_clear; before the repair of F14b it could be -0.0).  Not proved: the main clause for binary32
      under the conditioning predicate [well_conditioned] (checked on every run by the
      correspondence harness instead). *)
 From Coq Require Import List ZArith QArith Bool Arith Lia Reals Lra.
 From Flocq Require Import Core BinarySingleNaN.
 From LMBase Require Import Res ListX IEEE.
-From LMDisc Require Import DiscModel DiscImplCheck DiscProofs DiscKernels DiscIEEE DiscImplProofs DiscF32Mono DiscF32Main DiscF32Sum DiscF32Cond.
+From LMDisc Require Import DiscModel DiscImplCheck DiscProofs DiscKernels DiscIEEE DiscImplProofs DiscF32Mono DiscF32Main DiscF32Sum DiscF32Cond DiscF32Zero DiscF32End DiscF32Sign.
 Import ListNotations.
 
 (* (1) exact arithmetic: byte score of a window >= byte image of its real score *)
@@ -201,31 +200,28 @@ Theorem C08_threshold_transfer_f32 :
     (scale_with f32_ops f o t <= b)%Z.
 Proof. exact threshold_transfer_f32. Qed.
 
-(* ... and the sign condition is needed: to_discrete yields the factor -0.0 on a matrix of
-   zeros of mixed signs; the main clause holds at the position (sr <= b) and the matrix
-   satisfies the conditioning predicate, yet a threshold below the real score maps to a byte
-   threshold above the byte score (known finding F14b) *)
-Theorem C08_threshold_transfer_f32_refuted_negzero :
-  exists (m : list (list F32.t)) (s : list nat) (pos : nat) (t : F32.t) (b sr st : Z),
-    f32_finite_nonwild 5 m = true /\ (pos + length m <= length s)%nat /\
-    (* byte score, scale(real score), scale(t), t <= real score, well_conditioned, sign bit clear *)
-    f32_transfer_outcome m s pos t = Ok (b, sr, st, true, true, false) /\
-    (sr <= b)%Z /\ (b < st)%Z.
-Proof. exact transfer_f32_refuted_negzero. Qed.
+(* ... and the factor computed by to_discrete always has its sign bit clear (the score range goes
+   through abs since the repair of F14b: max_score - offset could be -0.0 on zero matrices of mixed
+   signs, which mapped thresholds below the minimum to 255) *)
+Theorem C08_factor_sign_clear :
+  forall (K : nat) (m : list (list F32.t)) (d : @dmat F32.t),
+    to_discrete f32_ops K m = Ok d -> factor_sign_clear (d_factor d) = true.
+Proof. exact factor_sign. Qed.
 
 (* (5) binary32, main clause under the conditioning predicate, PARTIAL.
    Full statement (not proved in this generality): for every matrix with finite non-wildcard cells
    such that [well_conditioned m factor = true], every window: scale f32_ops d real <= b.
-   Proved: exactly that, for EVERY window (wildcard cells finite, -inf, +inf or NaN), when in addition
-     - the factor is finite and positive  (missing: factor = 0, i.e. constant matrices or a range that
-       underflows, which the predicate also admits; factor NaN / +inf are excluded by the predicate
-       or give all-zero images),
-     - the motif has at most 16384 rows   (so that C + 1/2 is a binary32 number),
-     - cond_A m <= 2^126                  (so that real - offset cannot overflow).
-   Proof: every partial sum of the score and of the offset is bounded by the corresponding partial
-   sum of cond_A (monotone rounding), so each of the 2M+1 roundings and M cell subtractions errs by at
-   most ulp(cond_A)/2 resp. ulp(cond_A): real (-) offset <= sum_i (x_i (-) o_i) + (2M+1) ulp(cond_A)
-   <= ... + factor/4 by the predicate; then C08_f32_main_partial below.  All hypotheses are executable. *)
+   Proved: exactly that, for EVERY window (wildcard cells finite, -inf, +inf or NaN) and every factor
+   the predicate admits (+0.0: constant matrices or an underflowing range; positive finite; +inf),
+   under two extra executable side conditions; what is missing is their removal:
+     - the motif has at most 16384 rows     (so that C + 1/2 is a binary32 number);
+     - cond_A m <= 2^126                    (so that real - offset cannot overflow).
+   Proof, positive finite factor: every partial sum of the score and of the offset is bounded by
+   the corresponding partial sum of cond_A (monotone rounding), so each of the 2M+1 roundings errs
+   by at most ulp(cond_A)/2 and each cell subtraction by ulp(cond_A):
+   real (-) offset <= sum_i (x_i (-) o_i) + (2M+1) ulp(cond_A) <= ... + factor/4 by the predicate;
+   then (5') below.  Factor +0.0: monotone addition of the two sums, a subtraction never underflows
+   to zero.  Windows with a non-finite cell: the image is 0 or a cell is 255. *)
 Theorem C08_f32_main_well_conditioned_partial :
   forall (K : nat) (m : list (list F32.t)) (d : @dmat F32.t) (w : list nat) (real : F32.t) (b : Z),
     Forall (fun row => Forall (fun x => F32.is_finite x = true) (nonwild K row)) m ->
@@ -233,11 +229,48 @@ Theorem C08_f32_main_well_conditioned_partial :
     real_wscore f32_ops m w = Ok real ->
     disc_wscore (d_data d) w = Ok b ->
     well_conditioned m (d_factor d) = true ->
-    F32.is_finite (d_factor d) = true -> F32.lt F32.zero (d_factor d) = true ->
     (Z.of_nat (length m) <= 16384)%Z ->
     F32.le (cond_A m) (F32.of_Z_exp 1 126) = true ->
     (scale f32_ops d real <= b)%Z.
-Proof. exact f32_main_well_conditioned_exec. Qed.
+Proof. exact f32_main_all_factors'. Qed.
+
+(* (5c) binary32, consequence clause under the conditioning predicate, PARTIAL in the same sense as (5) *)
+Theorem C08_threshold_transfer_f32_well_conditioned_partial :
+  forall (K : nat) (m : list (list F32.t)) (d : @dmat F32.t) (w : list nat) (real t : F32.t) (b : Z),
+    Forall (fun row => Forall (fun x => F32.is_finite x = true) (nonwild K row)) m ->
+    to_discrete f32_ops K m = Ok d ->
+    real_wscore f32_ops m w = Ok real ->
+    disc_wscore (d_data d) w = Ok b ->
+    well_conditioned m (d_factor d) = true ->
+    (Z.of_nat (length m) <= 16384)%Z ->
+    F32.le (cond_A m) (F32.of_Z_exp 1 126) = true ->
+    F32.le t real = true ->
+    (scale f32_ops d t <= b)%Z.
+Proof. exact f32_threshold_transfer_all. Qed.
+
+(* (5e) end to end in binary32, PARTIAL in the same sense as (5): for every arm of the dispatcher and
+   every position i <= L - M the byte at index i of the arm's score matrix (= DiscreteMatrix::
+   score_position) is >= the image of the BINARY32 real score of that position (ScoringMatrix::
+   score_position as the code computes it) *)
+Theorem C08_backends_overestimate_f32_partial :
+  forall (K : nat) (m : list (list F32.t)) (d : @dmat F32.t) (pads : nat -> list Z) (s : list nat) (a : arm) (i : nat),
+    (0 < K)%nat -> (K <= 16)%nat ->
+    Forall (fun row => length row = K) m ->
+    Forall (fun row => Forall (fun x => F32.is_finite x = true) (nonwild K row)) m ->
+    to_discrete f32_ops K m = Ok d ->
+    (forall i, 16 <= K + length (pads i))%nat ->
+    Forall (fun v => (v < K)%nat) s ->
+    (1 <= length m)%nat -> (i + length m <= length s)%nat ->
+    well_conditioned m (d_factor d) = true ->
+    (Z.of_nat (length m) <= 16384)%Z ->
+    F32.le (cond_A m) (F32.of_Z_exp 1 126) = true ->
+    exists sc b real,
+      score_u8 a (d_data d) pads (striped K 32 (configure_wrap_of (length m)) s) = Ok sc /\
+      sc_index sc i = Ok b /\
+      disc_score (d_data d) (striped K 32 (configure_wrap_of (length m)) s) i = Ok b /\
+      real_score f32_ops m (striped K 32 (configure_wrap_of (length m)) s) i = Ok real /\
+      (scale f32_ops d real <= b)%Z.
+Proof. exact backends_overestimate_f32'. Qed.
 
 (* (5') binary32, main clause, PARTIAL, the analytic core of (5).  Full statement (not proved): for every matrix with finite
    non-wildcard cells that satisfies [well_conditioned], every window: scale f32_ops d real <= b.
@@ -347,7 +380,7 @@ Example ex_f32_hypotheses :
   match to_discrete f32_ops 5%nat ex_m32 with
   | Ok d =>
       well_conditioned ex_m32 (d_factor d) = true /\
-      F32.is_finite (d_factor d) = true /\ F32.lt F32.zero (d_factor d) = true /\
+      factor_sign_clear (d_factor d) = true /\ F32.lt F32.zero (d_factor d) = true /\
       F32.le (cond_A ex_m32) (F32.of_Z_exp 1 126) = true /\
       match real_wscore f32_ops ex_m32 [0; 1; 0]%nat, disc_wscore (d_data d) [0; 1; 0]%nat with
       | Ok real, Ok b => b = 255%Z /\ scale f32_ops d real = 255%Z
@@ -363,3 +396,9 @@ Proof.
   split; [vm_compute; reflexivity|]. vm_compute.
   repeat split; try reflexivity; discriminate.
 Qed.
+
+(* regression example for the repaired defect F14b: the zero matrix of mixed signs now has the
+   factor +0.0 and the threshold -1.0 maps to 0 (was 255) *)
+Example ex_negzero_repaired :
+  f32_transfer_outcome negz_matrix [0%nat] 0%nat (F32.of_bits 3212836864) = Ok (0, 0, 0, true, true, true)%Z.
+Proof. exact negz_outcome. Qed.
